@@ -27,7 +27,7 @@ PROP = "C04"
 CATS = ["create", "fix", "trim", "update"]
 CI_VARS = ["CI", "BUILD_ID", "BUILD_NUMBER", "BUILDKITE", "CIRCLECI", "CONTINUOUS_INTEGRATION", "GITHUB_ACTIONS", "HUDSON_URL", "JENKINS_URL", "TEAMCITY_VERSION", "TRAVIS", "bamboo.buildKey"]
 RULE = (
-    "project (3 variants, one of them without any trim-pending snapshot so that review never asks a trim question): test_one.py + test_two.py + helper.py + storage dir with one referenced and one unreferenced persisted external; sites pending in exactly one category (empty / wrong value / "
+    "project (4 variants: one without any trim-pending snapshot so that review never asks a trim question, one in which every trim change shares its list/dict with a create/fix change): test_one.py + test_two.py + helper.py + storage dir with one referenced and one unreferenced persisted external; sites pending in exactly one category (empty / wrong value / "
     "loose bound / untested member / `2+3` text / missing external) plus mixed sites (`in` list needing fix+trim, sub-snapshot needing create+trim) and xfail-marked tests; configuration = "
     "category subset x mode {-, report, review, short-report, disable} x source {CLI, INLINE_SNAPSHOT_DEFAULT_FLAGS, pyproject default-flags, default-flags-tui under FORCE_COLOR, --fix/--review, "
     "custom shortcut} incl. conflicting sources x 4 review answers x environment {plain, one of 12 CI variables, CI+PYCHARM_HOSTED, -n 2, -n 0}; case = session; non-trivial = the model's approved "
@@ -52,6 +52,21 @@ UNUSED = b"unused persisted data"
 # (name, source lines, op, previous expr or None, observations, categories pending, xfail?)
 def sites_for(variant):
     ref = sha(PERSISTED)
+    if variant == 3:
+        # every trim (and update) change shares its container with a change of an earlier category:
+        # a later category must not be dropped because it "adds nothing new" to the containers already edited
+        one = [
+            ("create_eq", "assert 5 == snapshot()", "eq", None, ["5"]),
+            ("mixed_in", "for x in (2, 1):\n        assert x in snapshot([2, 3])", "in", "[2, 3]", ["2", "1"]),
+            ("clean_eq", "assert double(3) == snapshot(6)", "eq", "6", ["6"]),
+            ("ext_ref", f"assert outsource('persisted data') == snapshot(external('{ref[:12]}*.txt'))", None, None, None),
+        ]
+        two = [
+            ("mixed_sub", "s = snapshot({'a': 1, 'unused': 2 })\n    assert s['a'] == 1\n    assert s['b'] == 5", "getitem", "{'a': 1, 'unused': 2 }", [("'a'", "1"), ("'b'", "5")]),
+            ("create_ext", "assert outsource('new text') == snapshot()", None, None, None),
+            ("xfail_fix", "assert 1 == snapshot(2)", "xfail", "2", ["1"]),
+        ]
+        return one, two
     if variant == 2:
         one = [
             ("create_eq", "assert 5 == snapshot()", "eq", None, ["5"]),
@@ -254,7 +269,7 @@ def session_inputs(cfg):
 def check_session(cfg, variant, out, C):
     args, env, pp, stdin = session_inputs(cfg)
     files, one, two = build_files(variant, pp)
-    cfg = dict(cfg, pending=[c for c in CATS if c != "trim"] if variant == 2 else CATS)
+    cfg = dict(cfg, pending=[c for c in CATS if c != "trim"] if variant == 2 else ["create", "fix", "trim"] if variant == 3 else CATS)
     exp = approval_model(cfg)
     proj = session.Project(files, with_vp=False)
     try:
@@ -421,8 +436,18 @@ def run_shard(args):
         if (i + 7) % args.nshards == args.shard:
             check_session(dict(base, **fc), variant=2, out=out, C=C)
             C["no_trim_question_sessions"] = C.get("no_trim_question_sessions", 0) + 1
+    SHARED = [
+        dict(cli=["create", "trim"], source="cli", envk="plain"),
+        dict(cli=["fix", "trim"], source="cli", envk="plain"),
+        dict(cli=["create", "fix", "trim", "update"], source="cli", envk="plain"),
+        dict(cli=["review"], source="cli", envk="plain", tty=True, answers=[True, True, True, True]),
+    ]
+    for i, fc in enumerate(SHARED):
+        if (i + 11) % args.nshards == args.shard:
+            check_session(dict(base, **fc), variant=3, out=out, C=C)
+            C["shared_container_sessions"] = C.get("shared_container_sessions", 0) + 1
     for n, cfg in enumerate(todo):
-        check_session(cfg, variant=n % 3, out=out, C=C)
+        check_session(cfg, variant=n % 4, out=out, C=C)
         if len(out["samples"]) < 2:
             a, e, pp, si = session_inputs(cfg)
             out["samples"].append({"args": a, "env": e, "pyproject": pp, "stdin": si.decode(), "model": str(approval_model(cfg))})
